@@ -114,6 +114,7 @@ func buildCorpus(c *fw.Ctx) *builtCorpus {
 	repoHash, _ := exec.Command("bash", "-c", "cd "+fw.RepoDir+" && { git rev-parse HEAD; git diff HEAD -- . ':!example' ':!cmd' ; git status --porcelain -- . ':!example'; } | sha256sum").Output()
 	harnessHash, _ := exec.Command("bash", "-c", "cd "+fw.VerifDir+"/harness && cat gencheck/*.go internal/prng/*.go cmd/corr/gen.go internal/genpipe/*.go | sha256sum").Output()
 	key := genpipe.Key(bc.gens, string(repoHash), string(harnessHash))
+	c.Extra["corpus_key_inputs"] = fmt.Sprintf("repo %.12s harness %.12s generated %s", repoHash, harnessHash, genpipe.Key(bc.gens))
 	bc.dir = filepath.Join(cache, "gen", key)
 	bc.bin = filepath.Join(bc.dir, "run.bin")
 	statusFile := filepath.Join(bc.dir, "status.json")
